@@ -5,8 +5,12 @@ import (
 	"fmt"
 	"hash/fnv"
 	"os"
+	"runtime"
 	"sort"
 	"strings"
+	"sync/atomic"
+	"syscall"
+	"time"
 )
 
 // Config configures one simulated run.
@@ -29,6 +33,8 @@ const (
 	StatusKill     = "kill"     // library sent SIGTERM to itself (NIC watchdog)
 	StatusBudget   = "budget"   // step budget exhausted (infrastructure)
 	StatusIdle     = "idle"     // nothing left to run and no verdict (infrastructure)
+	StatusLivelock = "livelock" // budget exhausted while one task had been running alone at one virtual instant for the last quarter of it
+	StatusSpin     = "spin"     // a task burned CPU for seconds without reaching a scheduling point
 )
 
 // Outcome is what the kernel returns to the worker's main goroutine.
@@ -49,6 +55,7 @@ type Outcome struct {
 	Faults     map[string]int64
 	TasksAtEnd string
 	MaxTasks   int
+	SoloSites  []int64 // StatusLivelock: the sites the looping task went through
 }
 
 type tstate int
@@ -142,19 +149,22 @@ type fsWrite struct {
 }
 
 type kernel struct {
-	cfg   Config
-	tasks []*ktask // live tasks only (finished ones are removed)
-	ntask int64    // ids handed out
-	live  int
-	locks map[int64]*lockState
-	tmrs  timerHeap
-	byID  map[int64]*ktimer
-	now   int64
-	seq   int64
-	epoch uint64
-	rng   uint64
-	tape  []uint32
-	tpos  int
+	soloSince int64 // step at which the current task started running alone at the current instant
+	soloNow   int64
+	soloSites []int64 // distinct sites it went through since (capped)
+	cfg       Config
+	tasks     []*ktask // live tasks only (finished ones are removed)
+	ntask     int64    // ids handed out
+	live      int
+	locks     map[int64]*lockState
+	tmrs      timerHeap
+	byID      map[int64]*ktimer
+	now       int64
+	seq       int64
+	epoch     uint64
+	rng       uint64
+	tape      []uint32
+	tpos      int
 
 	steps    int64
 	switches int64
@@ -261,7 +271,15 @@ func Run(cfg Config, driver func()) Outcome {
 		k.loop()
 		close(done)
 	}()
-	<-done
+	spun := make(chan string, 1)
+	go spinWatch(done, spun)
+	select {
+	case <-done:
+	case stacks := <-spun:
+		// The kernel goroutine is blocked waiting for the spinning task: its state is quiescent.
+		k.out.Status = StatusSpin
+		k.out.PanicText = stacks
+	}
 	active = false
 	k.out.Steps = k.steps
 	k.out.Switches = k.switches
@@ -319,17 +337,84 @@ func (k *kernel) loop() {
 				k.tr("switch %d->%d", cur.id, next.id)
 			}
 		}
+		if next != cur || k.now != k.soloNow {
+			k.soloSince, k.soloNow = k.steps, k.now
+			k.soloSites = nil
+		}
 		k.wake(next)
 		cur = next
 		m := k.readMsg()
 		k.steps++
 		k.seq++
+		atomic.StoreInt64(&stepBeat, k.steps)
+		if len(k.soloSites) < 64 {
+			seen := false
+			for _, x := range k.soloSites {
+				if x == cur.lastSite {
+					seen = true
+				}
+			}
+			if !seen {
+				k.soloSites = append(k.soloSites, cur.lastSite)
+			}
+		}
 		if k.steps > k.cfg.MaxSteps {
 			k.tr("step budget exhausted")
+			// A run of the last quarter of the budget by one task alone, without the clock moving
+			// and through a handful of sites, is a loop that will never end, not a long scenario.
+			if solo := k.steps - k.soloSince; solo >= k.cfg.MaxSteps/4 && len(k.soloSites) < 64 {
+				k.out.Deadlock = fmt.Sprintf("task %d (kind=%d, started at site %d) executed the last %d scheduling points alone at virtual time %d through %d distinct site(s) %v", cur.id, cur.kind, cur.site, solo, k.now, len(k.soloSites), k.soloSites)
+				k.out.SoloSites = append([]int64(nil), k.soloSites...)
+				dumpReq = true
+				cur.ctx.in = reply{}
+				semrelease(&cur.ctx.sema, true, 0)
+				semacquire(&ksema)
+				k.out.PanicText = hangDump
+				k.end(StatusLivelock)
+				return
+			}
 			k.end(StatusBudget)
 			return
 		}
 		k.handle(cur, m)
+	}
+}
+
+// stepBeat is the kernel's step counter as seen by the spin watchdog.
+var stepBeat int64
+
+// SpinCPU is the processor time a task may consume between two scheduling points before the
+// run is declared to be spinning. A legal run needs microseconds to milliseconds.
+var SpinCPU = 12 * time.Second
+
+func cpuTime() time.Duration {
+	var ru syscall.Rusage
+	if syscall.Getrusage(syscall.RUSAGE_SELF, &ru) != nil {
+		return 0
+	}
+	return time.Duration(ru.Utime.Nano() + ru.Stime.Nano())
+}
+
+// spinWatch runs on the real clock, outside the simulation. It measures processor time, not
+// wall-clock time, so a loaded machine cannot trip it.
+func spinWatch(done chan struct{}, spun chan string) {
+	last, lastCPU := int64(-1), cpuTime()
+	for {
+		select {
+		case <-done:
+			return
+		case <-time.After(500 * time.Millisecond):
+		}
+		if b := atomic.LoadInt64(&stepBeat); b != last {
+			last, lastCPU = b, cpuTime()
+			continue
+		}
+		if cpuTime()-lastCPU >= SpinCPU {
+			buf := make([]byte, 1<<20)
+			n := runtime.Stack(buf, true)
+			spun <- string(buf[:n])
+			return
+		}
 	}
 }
 
